@@ -62,6 +62,9 @@ class Plane:
 
         if mask is None:
             mask = np.copy(self._amplitude)
+        else:
+            # binarise a copy, never the caller's array
+            mask = np.array(mask)
         
         mask[mask != 0] = 1
         self._mask = mask
